@@ -8,7 +8,7 @@ theorem DStop.src (s : Nat) (cl : Client) (rs : DevState) : ∀ a ∈ srcActs s,
     DStop s st cl → DStop s (a.upd st) cl := by
   intro a ha st hg ht hu h
   obtain ⟨k1, k2, k3, k4, k5, k6, k7, k8, k9, k10, k11, k12, k13⟩ := hu
-  obtain ⟨c1, c2, c3, c4, c7, c7a, c8, y, yq, yqs, yqx, yqe⟩ := h
+  obtain ⟨c1, c2, c3, c4, c7, c7a, c8, y, yq, yqs, yqx, yqe, yend⟩ := h
   have tS := ht.start_src; have hs8 := stage_le cl.pc s
   have hwf := cv_wmap_fail st.sinkCh st.F
   have hwo := fun b => cv_wmap_ok k1 st.F b
@@ -42,7 +42,7 @@ set_option maxHeartbeats 8000000 in
 theorem DStop.flt (s : Nat) (cl : Client) (rs : DevState) : ∀ a ∈ fltActs, ∀ st, a.guard st = true → TInv s st cl rs → DUse s st cl → DStop s st cl → DStop s (a.upd st) cl := by
   intro a ha st hg ht hu h
   obtain ⟨k1, k2, k3, k4, k5, k6, k7, k8, k9, k10, k11, k12, k13⟩ := hu
-  obtain ⟨c1, c2, c3, c4, c7, c7a, c8, y, yq, yqs, yqx, yqe⟩ := h
+  obtain ⟨c1, c2, c3, c4, c7, c7a, c8, y, yq, yqs, yqx, yqe, yend⟩ := h
   have tF := ht.start_flt; have hs8 := stage_le cl.pc s
   have hf : (step st.filtCh (.rmap 0)).1 = st.filtCh := filt_rmap k2
   unfold fltActs at ha
@@ -58,7 +58,7 @@ theorem DStop.snk (s : Nat) (cl : Client) (rs : DevState) : ∀ a ∈ snkActs s,
   have hch := clHolds0_stop cl.pc s
   obtain ⟨k1, k2, k3, k4, k5, k6, k7, k8, k9, k10, k11, k12, k13⟩ := hu
   have e8 := he.snk_flush; have e10b := he.drained_pc; have e10a := he.err_disturbed
-  obtain ⟨c1, c2, c3, c4, c7, c7a, c8, y, yq, yqs, yqx, yqe⟩ := h
+  obtain ⟨c1, c2, c3, c4, c7, c7a, c8, y, yq, yqs, yqx, yqe, yend⟩ := h
   have hn1 := nrd_pos k3
   have hrm := cv_rmap0 k1 hn1
   have hru := fun k => cv_runmap0 k1 k hn1
